@@ -20,6 +20,7 @@ from stone.ir import (
     is_list_type,
     is_struct_type,
     is_user_defined_type,
+    unwrap,
 )
 
 _base_type_table = {
@@ -66,7 +67,9 @@ def fmt_type_name(data_type):
     else:
         fmted_type = _base_type_table.get(data_type.__class__, 'Object')
         if is_list_type(data_type):
-            fmted_type += '.<' + fmt_type(data_type.data_type) + '>'
+            # Item types may be aliases and nullables, like field types.
+            item_type, _, _ = unwrap(data_type.data_type)
+            fmted_type += '.<' + fmt_type(item_type) + '>'
         return fmted_type
 
 
